@@ -1483,8 +1483,35 @@ def _r20g(chk, repo) -> None:
     chk.floor("R20g.line_loops", 1)
 
 
+def _r20i(chk, repo) -> None:
+    f = repo.fn(NOQA, "IgnoreMask._ignore_masked_violations_line_range")
+    sorts = [c for c in ast.walk(f) if isinstance(c, ast.Call) and (call_name(c) == "sorted" or (isinstance(c.func, ast.Attribute) and c.func.attr == "sort"))]
+    chk.count("R20i.directive_sorts", len(sorts))
+    for c in sorts:
+        k = kwarg(c, "key")
+        attrs, first = None, None
+        if isinstance(k, ast.Lambda) and len(k.args.args) == 1:
+            p = k.args.args[0].arg
+            body = k.body
+            comps = list(body.elts) if isinstance(body, ast.Tuple) else [body]
+            if all(isinstance(x, ast.Attribute) and isinstance(x.value, ast.Name) and x.value.id == p for x in comps):
+                attrs = [x.attr for x in comps]
+        elif isinstance(k, ast.Call) and call_name(k).split(".")[-1] == "attrgetter" and all(isinstance(a, ast.Constant) and isinstance(a.value, str) for a in k.args):
+            attrs = [a.value for a in k.args]
+        ok = bool(attrs) and attrs[0] == "line_no" and set(attrs) <= {"line_no", "line_pos"} and not any(kw.arg == "reverse" for kw in c.keywords)
+        chk.require(
+            ok, "R20i", c,
+            f"the enable/disable directives that affect a violation are not ordered by their position alone (`{short(k, 70) if k is not None else 'no key'}`): directives sharing a line are "
+            "replayed in another order than they were written (e.g. disable before enable), so `enable=all ... disable=LT01` on one line leaves LT01 enabled",
+            detail="range directives sorted by line_no (then line_pos) only, stable", construct=f"{NOQA}::IgnoreMask._ignore_masked_violations_line_range",
+        )
+    chk.floor("R20i.directive_sorts", 1)
+
+
 def run(chk) -> None:
     repo = chk.repo
+    chk.rule("R20i", "range directives are replayed in source order: the sort of the directives affecting a violation is keyed on the directive's position only (line_no, optionally line_pos), never on its action or rules, and is not reversed")
+    _r20i(chk, repo)
     chk.rule("R20a", "every IgnoreMask construction outside noqa.py is reachable only when 'not disable_noqa or disable_noqa_except' is known; a LintedFile stores None or such a mask")
     chk.rule("R20b", "all construction sites read directives with allowed_rule_ref_map(<pack>.reference_map, <disable_noqa_except>); the fallback reads .source_str with the config's dialect; directive lines are source positions")
     chk.rule("R20c", "get_violations applies the file's mask exactly under filter_ignore to the running list; the directive list is split into complementary views, both matchers run; unused warnings are 'not used' over the same list; hiding marks the directive; 'used' is only set True inside noqa.py's classes")
@@ -1525,6 +1552,24 @@ _R20H_CUT = (
 _R20F_LOOP = "        for r in unexpanded_rules:\n            for x in fnmatch.filter(output_map.keys(), r):\n                noqa_set |= output_map.get(x, set())\n"
 
 VARIANTS: List[Variant] = [
+    Variant(
+        "r20i-tie-break-on-action", NOQA,
+        "                key=lambda ignore: ignore.line_no,\n",
+        "                key=lambda ignore: (ignore.line_no, ignore.action or \"\"),\n",
+        "R20i", "_ignore_masked_violations_line_range", "seeded C20-9",
+    ),
+    Variant(
+        "r20i-sorted-descending", NOQA,
+        "                key=lambda ignore: ignore.line_no,\n",
+        "                key=lambda ignore: ignore.line_no,\n                reverse=True,\n",
+        "R20i", "_ignore_masked_violations_line_range", "last directive replayed first",
+    ),
+    Variant(
+        "quiet-r20i-position-pair", NOQA,
+        "                key=lambda ignore: ignore.line_no,\n",
+        "                key=lambda d: (d.line_no, d.line_pos),\n",
+        "QUIET", None, "R20i: keyed on the full position",
+    ),
     Variant(
         "block-comment-markers-stripped-by-character-set", NOQA,
         '        if comment_content.endswith("*/"):\n            comment_content = comment_content[:-2].rstrip()\n',
